@@ -111,6 +111,24 @@ theorem C29_blank_skipped (X : List Char) :
   · rw [kindsFrom_skip _ 1 (by simp) (by rfl) (by omega)]; rfl
   · rw [kindsFrom_skip _ 2 (by simp) (by rfl) (by omega)]; rfl
 
+/-- **Shebang.** A first line beginning with `#!` (any text, up to the line break or the end of the
+    file) contributes no token: the file has the token kinds of what follows that line. -/
+theorem C29_shebang_line_skipped (c X : List Char) (hc : ∀ x ∈ c, x ≠ '\n')
+    (hX : X = [] ∨ ∃ r, X = '\n' :: r) :
+    kinds ('#' :: '!' :: (c ++ X)) = kindsFrom X := by
+  have hn : shebangLen ('#' :: '!' :: (c ++ X)) = c.length + 2 := by
+    have := lineCommentLen_append c X hc hX
+    simp only [shebangLen, lineCommentLen, show ('!' : Char) ≠ '\n' by decide, if_false, this]; omega
+  have hd : ('#' :: '!' :: (c ++ X)).drop (c.length + 2) = X := by
+    have e : '#' :: '!' :: (c ++ X) = ('#' :: '!' :: c) ++ X := by simp
+    rw [e]; exact List.drop_left' (by simp)
+  unfold kinds tokenize
+  simp only [hn, hd]
+  have hlen : X.length < ('#' :: '!' :: (c ++ X)).length + 1 := by
+    simp only [List.length_cons, List.length_append]; omega
+  rw [tokenizeAux_fuel _ (X.length + 1) (c.length + 2) X hlen (Nat.lt_succ_self _)]
+  exact kinds_pos_irrelevant _ _ 0 X
+
 /-- In front of any remaining input, a block comment is the same as one space. -/
 theorem C29_block_comment_transparent (c X : List Char) (h : noClose c = true) :
     kindsFrom ('/' :: '*' :: (c ++ '*' :: '/' :: X)) = kindsFrom (' ' :: X) := by
